@@ -10,3 +10,31 @@ add("C13", "exploration", "runtime monitor at a quiescent point: live class regi
     "(order, numbering, kind, bounds, enum members after mangling, defaults, unit tables, option byte/bit/size/number/min/max/inversion/exclusivity, options chunk number) "
     "with an independent reading of specs/fileformat.yaml. The domain is finite and enumerated completely (exhaustive:true); thorough additionally regenerates the base classes with genrv into a scratch dir and diffs them.",
     TB + "; extras beyond the spec list tolerated only when unattached and after all spec controllers", "DESIGN.md 2/C13")
+
+add("C09", "exploration", "runtime contract probes on real module instances against the independent spec reader (boundary classes enumerated completely, both modes, both assignment paths)",
+    "For all 43 types and 502 controllers: the default observed on fresh instances equals the spec; every boundary class (min-1, min, min+1, interior, max-1, max, max+1, far out, every enum member by value/member/name, invalid values and names, booleans and truthy ints) is assigned through setattr and through constructor keywords, in strict and in lenient mode, under every unit of unit-dependent ranges; read-back, rejection with ControllerValueError and retention of the previous value are observed.",
+    TB + "; lenient-mode treatment of out-of-range values observed, not judged", "DESIGN.md 2/C09")
+add("C10", "exploration", "complete enumeration of (controller, unit, value) through set_raw/getattr/get_raw/pattern_value on real instances, arithmetic oracle from the spec",
+    "All integer values of all 502 controllers (every unit variant), all enum members, both booleans and a user-defined representative (3.65M pairs) are driven through the real encode/decode/pattern functions on both tiers (exhaustive:true); thorough repeats everything through modules obtained by clone() (the reader's controllers_loaded path).",
+    TB, "DESIGN.md 2/C10")
+add("C11", "exploration", "model-based monitor: option assignments on real modules observed in memory, after clone(), after a project round trip, and in the independently decoded options record",
+    "Bit-disjointness from the live Option objects and from the spec; every representable value of every option alone (complete), all option pairs, exclusivity sequences, clamping probes and random full assignments via setattr/constructor; the options CHDT bytes of the written file are decoded without rv and compared with the model.",
+    TB + ", rvmon.iffparse", "DESIGN.md 2/C11")
+add("C12", "exploration", "complete enumeration of packed sub-field triples on real Note/Visualization objects + independent byte-level oracle for cells, patterns, SMII, SFGS",
+    "All 4 x 65536 x 256 (old word, sub-field, new value) triples of the Note setters and all getter words on both tiers (exhaustive:true); every NOTECMD x velocity, each 16-bit field completely; pattern images through Pattern.raw_data and through written files (PDTA compared byte for byte without rv); visualization word products; SMII/SFGS through save and load.",
+    "CPython struct, rvmon.iffparse; cell layout per DESIGN.md 1.5", "DESIGN.md 2/C12")
+add("C07", "exploration", "model-based history checker: edge-set model stepped with the real connect/>>/<</~ after every operation + links_consistent invariant (also an icontract post-condition on Project.connect)",
+    "Breadth-first over all requests of a 44-operand alphabet in every reachable link-table state for N=3 (depth 3 complete on thorough, sampled on quick; N=4 depth 2 on thorough), plus random sequences up to length 40 for N<=8 including lists with repeated modules, self pairs, and cross-project operands.",
+    "edge-set model in rvmon/checks/c07.py; icontract 2.7.3 (builtin wrapper fallback)", "DESIGN.md 2/C07")
+add("C14", "exploration", "model-based history checker: slot-list model + index_coherent invariant after every attach/new/+=/pattern/Note.mod/save-load operation",
+    "Random operation sequences from every gap pattern over <=6 slots (each built and loaded; start-state axis exhaustive), with foreign and duplicate modules/patterns, lists containing a foreign module, Note.mod get/set and interleaved save/load.",
+    "slot model in rvmon/checks/c14.py", "DESIGN.md 2/C14")
+add("C18", "fault_enumeration", "fault injection under monitors: failing file objects at every I/O call index, sys.monitoring line failpoints in rv code, truncation, corruption, failing open(); strictness flag and file handles observed around every (nested) read_sunvox_file",
+    "For all fixtures and generated nested files (MetaModule in MetaModule, sampler effect): a fault at every read/seek/tell index, at every chunk boundary, at every distinct rv source line reached (first+last occurrence; sampled on quick for most files), corruption making handlers raise, missing path, failing open; both initial flag values; BytesIO, str and Path sources. Outer and nested calls are judged on return and on raise; Path.open is patched to observe .closed; ResourceWarning is a second channel.",
+    "sys.monitoring (3.12); failpoints exclude the mechanism's own bookkeeping statements (see assumptions in evidence)", "DESIGN.md 2/C18")
+add("C19", "fault_enumeration", "fault injection in the user callable at every cell / yield index under a before/after monitor of Pattern contents and note ownership",
+    "All shapes up to 8x8 with a failure at every (line, track) for set_via_fn and after every yield count for set_via_gen (with and without scribbling on the scratch array), attached and unattached; random larger shapes and chains of 2-5 edits; success paths checked cell by cell and for note.pattern/note.project/note.mod.",
+    "none beyond CPython", "DESIGN.md 2/C19")
+add("C20", "exploration", "runtime monitor of delivered values: complete input axis 0..32768 per sampled parameter tuple through a real in-project MultiCtl and through convert_value; macro on every target",
+    "MultiCtl.macro on every (type, attached controller) and on random groups, refusal probes (17+ targets, two per module); delivery through real links with random windows/orientation/gain/quantization/monotone curves checked for range containment, monotonicity and untouched targets of unset mappings.",
+    TB, "DESIGN.md 2/C20")
